@@ -1226,13 +1226,17 @@ def _decorate_with_invariants(
     :return: function wrapped with invariant checks
     """
     if is_setattr is None:
-        is_setattr = func.__name__ == "__setattr__"
+        is_setattr = getattr(func, "__name__", None) == "__setattr__"
 
     if _already_decorated_with_invariants(func=func):
         return func
 
-    sign = inspect.signature(func)
-    param_names = list(sign.parameters.keys())
+    try:
+        param_names = list(inspect.signature(func).parameters.keys())
+    except (TypeError, ValueError):
+        # Some callables give no signature (*e.g.*, ``operator.attrgetter(...)`` used as the getter of a property).
+        # The instance is then simply the first positional argument.
+        param_names = []
 
     if is_init:
 
